@@ -1,25 +1,6 @@
 import KinModel.Lemmas.C04Local2
 namespace KinModel.DocValidate
 
-theorem hasCheck_single (T : Table) (o : Opts) (k : Kind) (n g : String) (h : rowsFor T.checks k n = [[g]]) :
-    hasCheck T o k n = litHolds o g := by
-  simp [hasCheck, h, anyHolds, guardsHold]
-
-structure TableFacts (T : Table) : Prop where
-  header : rowsFor T.checks .header "extensions" = []
-  sDefault : rowsFor T.checks .schema "default" = [["-schemaDefaultsValidationDisabled"]]
-  sExample : rowsFor T.checks .schema "example" = [["-examplesValidationDisabled"]]
-  pExample : rowsFor T.checks .parameter "example" = [["-examplesValidationDisabled"]]
-  pExamples : rowsFor T.checks .parameter "examples" = [["-examplesValidationDisabled"]]
-  mExample : rowsFor T.checks .mediaType "example" = [["-examplesValidationDisabled"]]
-  mExamples : rowsFor T.checks .mediaType "examples" = [["-examplesValidationDisabled"]]
-
-theorem tableFacts (T : Table) (hT : TableOK T = true) : TableFacts T := by
-  unfold TableOK at hT
-  simp only [Bool.and_eq_true, beq_iff_eq] at hT
-  obtain ⟨⟨⟨⟨⟨⟨⟨⟨_, h1⟩, h2⟩, h3⟩, h4⟩, h5⟩, h6⟩, h7⟩, _⟩ := hT
-  exact ⟨h1, h2, h3, h4, h5, h6, h7⟩
-
 theorem schemaType_all (o : Opts) (a : Attrs) (hi : Bool) (ty : String) :
     ((schemaTypeViols a hi ty).all fun v => !enabled o v) = schemaTypeOKCode o a hi ty := by
   unfold schemaTypeViols schemaTypeOKCode
@@ -34,13 +15,13 @@ theorem schemaType_all (o : Opts) (a : Attrs) (hi : Bool) (ty : String) :
     cases N <;> cases F <;> cases o.fmtEnabled <;> cases decide (ty = "string") <;> cases P <;> cases Q <;>
       cases o.patDisabled <;> cases decide (ty = "array") <;> cases hi <;> rfl
 
-theorem localOK_schema (T : Table) (o : Opts) (a : Attrs) (kids : List (String × Doc)) (hT : TableOK T = true) :
-    localOK T o (.node .schema a kids) = rulesOK o (.node .schema a kids) := by
+theorem localOK_schema (T : Table) (o : Opts) (a : Attrs) (kids : List (String × Doc)) (vs : List Bool)
+    (hT : TableOK T = true) :
+    localOK T o (.node .schema a kids) vs = rulesOK o (.node .schema a kids) := by
   have hx := checkExt_eq T o (.node .schema a kids) hT (by simp [extKinds, Doc.kind])
   have hf := tableFacts T hT
-  have hd := hasCheck_single T o .schema "default" _ hf.sDefault
-  have he := hasCheck_single T o .schema "example" _ hf.sExample
-  simp only [litHolds] at hd he
+  have hd : hasCheck T o a .schema "default" = !o.defDisabled := anyHolds_as o a _ _ hf.sDefault
+  have he : hasCheck T o a .schema "example" = !o.exDisabled := anyHolds_as o a _ _ hf.sExample
   simp (disch := decide) only [localOK, rulesOK, violations, Doc.kind, Doc.attrs, schemaOKCode, List.all_append, all_when,
     extra_all, hx, hd, he, enabled_plain, List.all_flatMap, schemaType_all]
   simp only [enabled]
